@@ -252,6 +252,19 @@ def _find_cycles(graph):
     return nontrivial_components
 
 
+def _location_of_node(node, ir):
+    """Returns the location of node, or of the innermost enclosing object with one.
+
+    Synthesized fields such as `$size_in_bytes` have no source location of their
+    own; errors that mention them are reported at the enclosing structure.
+    """
+    while True:
+        location = ir_util.find_object(node, ir).source_location
+        if location or len(node) <= 2:
+            return location
+        node = node[:-1]
+
+
 def _find_object_dependency_cycles(ir):
     """Finds dependency cycles in types in the ir."""
     dependencies, find_dependency_errors = _find_dependencies(ir)
@@ -269,7 +282,7 @@ def _find_object_dependency_cycles(ir):
         error_group = [
             error.error(
                 cycle_list[0][0],
-                node_object.source_location,
+                _location_of_node(cycle_list[0], ir),
                 "Dependency cycle\n" + node_object.name.name.text,
             )
         ]
@@ -277,7 +290,7 @@ def _find_object_dependency_cycles(ir):
             node_object = ir_util.find_object(node, ir)
             error_group.append(
                 error.note(
-                    node[0], node_object.source_location, node_object.name.name.text
+                    node[0], _location_of_node(node, ir), node_object.name.name.text
                 )
             )
         errors.append(error_group)
